@@ -85,6 +85,10 @@ Definition after_conf_change (s : pslot) (ccid : N) : pslot :=
   | Some c => if c =? ccid then mk_ps None (ps_chan s) (ps_cap s) else s
   | None => s
   end.
+(** recvConfChangeReply, time-out branch: the requester stops waiting.  The proposal was handed
+    to raft and will still be applied, so it stays saved; AfterConfChange frees the slot when
+    the change has been applied. *)
+Definition reply_timeout (s : pslot) : pslot := s.
 (** the raft loop takes the next proposal from the channel *)
 Definition take (s : pslot) : pslot := mk_ps (ps_saved s) (tl (ps_chan s)) (ps_cap s).
 
@@ -182,7 +186,7 @@ Definition sscase : Type := members * list (sreq * N * list N * list N).
 Definition sscase_ok (s : sscase) : bool := sseq_ok (fst s) ((fst s, []), (fst s, [])) (snd s).
 
 (** proposal slot cases *)
-Inductive pop := PSubmit (c : N) | PMake (c : N) | PAfter (c : N) | PTake.
+Inductive pop := PSubmit (c : N) | PMake (c : N) | PAfter (c : N) | PTake | PTimeout.
 Fixpoint pseq_ok (s : pslot) (l : list (pop * N * N * N)) : bool :=
   match l with
   | [] => true
@@ -192,8 +196,20 @@ Fixpoint pseq_ok (s : pslot) (l : list (pop * N * N * N)) : bool :=
                       | PMake _ => (s, match ps_saved s with Some _ => 1 | None => 0 end)
                       | PAfter x => (after_conf_change s x, 0)
                       | PTake => match ps_chan s with [] => (s, 3) | _ => (take s, 0) end
+                      | PTimeout => (reply_timeout s, 4)
                       end in
       (c =? code) && ((match ps_saved s' with Some x => x | None => 0 end) =? saved)
       && (N.of_nat (length (ps_chan s')) =? clen) && pseq_ok s' tl
+  end.
+(** the changes in flight: accepted by submitProposal (handed to raft) and not yet applied
+    ([PAfter x] = change x has been applied, whether or not anybody still waits for it) *)
+Definition pstep (st : pslot * list N) (o : pop) : pslot * list N :=
+  let '(s, fl) := st in
+  match o with
+  | PSubmit x => let '(s1, e) := submit s x in (s1, match e with POk => fl ++ [x] | _ => fl end)
+  | PMake _ => st
+  | PAfter x => (after_conf_change s x, filter (fun y => negb (y =? x)) fl)
+  | PTake => (match ps_chan s with [] => s | _ => take s end, fl)
+  | PTimeout => (reply_timeout s, fl)
   end.
 Definition pcase_ok (c : nat * list (pop * N * N * N)) : bool := pseq_ok (mk_ps None [] (fst c)) (snd c).
